@@ -1,9 +1,186 @@
-(* C05 - await_sync completes non-suspending async code and never strands a coroutine. *)
+(* C05 - await_sync completes non-suspending async code and never strands a coroutine.
+
+   A coroutine body is a tree [c : coro] (Coro/Tree.v): what it does until it
+   returns, raises or suspends ([run s c] = events, ContextVar store, stop),
+   and how it goes on after whatever is sent or thrown in at a suspension.
+   [await_sync fixd w s c] (Coro/AwaitSync.v) is asynkit's await_sync applied
+   to a new coroutine with body c, in a context with store s and with the
+   asyncio futures in state w ([fworld]: per future done / number of
+   callbacks / the handshake flag _asyncio_future_blocking).  [fixd = true] is
+   the code repaired by fixes/F1-future-blocking-flag.patch, [false] the code
+   before.  A body suspended at [Susp (VFut f) k] is inside Future.__await__ of
+   f, which set f's flag just before yielding.  References are CPython's own
+   protocol: [co_send] / [co_throw] / [co_close] on coroutine objects (Tree.v),
+   [native_await] (Native.v), and the tree of a native `async for`.
+   The models are tied to the code by the correspondence check (./check C05). *)
 From Asynkit Require Import Base.Prelude Coro.Tree Coro.Native Coro.TreeProofs Coro.AwaitSync
   Coro.AwaitSyncProofs.
 
-Theorem C05_sync_value : forall fixd w s c evs s' v,
-  run s c = (evs, s', SRet v) ->
-  await_sync fixd w s c = mksync evs (SyValue v) Finished s' w.
-Proof. exact await_sync_value. Qed.
-Print Assumptions C05_sync_value.
+(* If the coroutine completes without suspending, await_sync returns its value /
+   raises its exception, logs exactly the events of the native run
+   (coro.send(None)), leaves the same ContextVars, the coroutine is finished and
+   no future is touched.  Holds for the old and the repaired code. *)
+Theorem C05_sync_complete : forall fixd w s c,
+  no_susp (snd (run s c)) ->
+  let n := co_send KCoro (New c) s VNone in
+  let r := await_sync fixd w s c in
+  sr_events r = r_events n /\ sr_store r = r_store n /\
+  sr_obj r = Finished /\ r_obj n = Finished /\
+  sr_world r = w /\
+  match r_out n with
+  | OReturn v => sr_out r = SyValue v
+  | ORaise e => sr_out r = SyRaise e
+  | OYield _ => False
+  end.
+Proof. exact sync_complete. Qed.
+Print Assumptions C05_sync_complete.
+
+(* ... however deeply it is awaited by other non-suspending coroutines:
+   [nest d c] = d levels of `async def f(): return await <inner>` around c. *)
+Theorem C05_sync_complete_nested : forall d fixd w s c,
+  no_susp (snd (run s c)) ->
+  await_sync fixd w s (nest d c) = await_sync fixd w s c.
+Proof. exact sync_complete_nested. Qed.
+Print Assumptions C05_sync_complete_nested.
+
+(* If the coroutine suspends (at k, having yielded y) and - the property's
+   domain - does not swallow the abort and suspend again: SynchronousError is
+   raised; it is chained to exactly what coro.throw(SynchronousAbort()) raises
+   at that suspension (or is the "(caught BaseException)" variant without a
+   cause when the body returns); every event of that throw - handlers and
+   finally blocks on the way out - is in the log after the events of the start;
+   and the coroutine is finished. *)
+Theorem C05_blocking : forall fixd w s c ev0 s0 y k,
+  run s c = (ev0, s0, SSusp y k) ->
+  abort_terminates s0 k ->
+  let t := co_throw KCoro (Suspended k) s0 SynchronousAbort in
+  let r := await_sync fixd w s c in
+  sr_events r = ev0 ++ r_events t /\ sr_store r = r_store t /\
+  sr_obj r = Finished /\ r_obj t = Finished /\
+  match r_out t with
+  | ORaise e => sr_out r = SySyncError false (Some e)
+  | OReturn _ => sr_out r = SySyncError true None
+  | OYield _ => False
+  end.
+Proof. exact blocking. Qed.
+Print Assumptions C05_blocking.
+
+(* Outside the domain (the body swallows the abort and suspends again at k2):
+   the pending SynchronousError is chained to RuntimeError("coroutine ignored
+   SynchronousAbort"), then close() is CPython's coro.close(): its events are
+   logged, and if it raises - a third suspension gives "coroutine ignored
+   GeneratorExit" and leaves the coroutine suspended - that exception replaces
+   the SynchronousError. *)
+Theorem C05_blocking_outside_domain : forall fixd w s c ev0 s0 y k ev1 s1 y2 k2,
+  run s c = (ev0, s0, SSusp y k) ->
+  run s0 (k (Throw SynchronousAbort)) = (ev1, s1, SSusp y2 k2) ->
+  let cl := co_close KCoro (Suspended k2) s1 in
+  let r := await_sync fixd w s c in
+  sr_events r = ev0 ++ ev1 ++ r_events cl /\ sr_store r = r_store cl /\
+  sr_obj r = r_obj cl /\
+  sr_out r = match r_out cl with
+             | ORaise e => SyCloseRaised e
+             | _ => SySyncError false (Some rt_ignored_abort)
+             end.
+Proof. exact blocking_outside_domain. Qed.
+Print Assumptions C05_blocking_outside_domain.
+
+(* Repaired code: the object the coroutine was suspended on is left untouched.
+   If no Task step is in progress when await_sync is called (the flag of the
+   future is clear), every future is afterwards exactly as before: pending or
+   not, same callbacks, flag clear. *)
+Theorem C05_object_untouched : forall w s c ev0 s0 y k,
+  run s c = (ev0, s0, SSusp y k) ->
+  abort_terminates s0 k ->
+  (forall f, y = VFut f -> f_flag (w f) = false) ->
+  forall g, sr_world (await_sync true w s c) g = w g.
+Proof. exact object_untouched. Qed.
+Print Assumptions C05_object_untouched.
+
+(* ... so an ordinary Task which awaits that future later is accepted by
+   Future.__await__ and registered on it exactly as if await_sync had never run *)
+Theorem C05_object_awaitable_later : forall w s c ev0 s0 f k,
+  run s c = (ev0, s0, SSusp (VFut f) k) ->
+  abort_terminates s0 k ->
+  f_flag (w f) = false ->
+  let w' := sr_world (await_sync true w s c) in
+  awaitable_later w' f = true /\
+  forall g, fst (task_await_step w' f) g = fst (task_await_step w f) g.
+Proof. exact object_awaitable_later. Qed.
+Print Assumptions C05_object_awaitable_later.
+
+(* ... and the same for the second object, when the body swallowed the abort,
+   suspended again and then gave in to close() *)
+Theorem C05_object_untouched_second : forall w s c ev0 s0 y k ev1 s1 y2 k2,
+  run s c = (ev0, s0, SSusp y k) ->
+  run s0 (k (Throw SynchronousAbort)) = (ev1, s1, SSusp y2 k2) ->
+  no_susp (snd (run s1 (k2 (Throw GeneratorExit)))) ->
+  (forall f, f_flag (w f) = false) ->
+  forall g, sr_world (await_sync true w s c) g = w g.
+Proof. exact object_untouched_second. Qed.
+Print Assumptions C05_object_untouched_second.
+
+(* Finding F1 - the code before the repair violates "left untouched": for the
+   body `await f` on a pending future f with its flag clear, after await_sync
+   the flag is set although f is still pending, and Future.__await__ refuses the
+   next awaiter with RuntimeError("await wasn't used with future"). *)
+Theorem C05_refuted_before_fix : exists (c : coro) (f : Z) (k : input -> coro),
+  run [] c = ([], [], SSusp (VFut f) k) /\ abort_terminates [] k /\
+  f_flag (world0 f) = false /\
+  let w' := sr_world (await_sync false world0 [] c) in
+  f_flag (w' f) = true /\ f_done (w' f) = false /\
+  awaitable_later w' f = false /\
+  snd (task_await_step w' f) = Some rt_await_no_future.
+Proof. exact refuted_before_fix. Qed.
+Print Assumptions C05_refuted_before_fix.
+
+(* aiter_sync over an iterable whose successive __anext__() coroutines have the
+   bodies [anexts] (StopAsyncIteration when the list is used up): whenever the
+   native loop `async for x in it: <record x>` runs to its end without
+   suspending, aiter_sync hands out the same values interleaved with the same
+   events ([item v] marks a value), leaves the same ContextVars, touches no
+   future, and ends as the native loop does: normally at StopAsyncIteration, or
+   with the exception an __anext__ raised. *)
+Theorem C05_aiter : forall fixd anexts w s evs s' st take,
+  run s (async_for anexts) = (evs, s', st) ->
+  no_susp st ->
+  (length anexts < take)%nat ->
+  let r := aiter_sync fixd w s anexts take in
+  ai_events r = evs /\ ai_store r = s' /\ ai_world r = w /\
+  ai_end r = match st with
+             | SRaise e => ARaise (SyRaise e)
+             | _ => AEnd
+             end.
+Proof. exact aiter_native. Qed.
+Print Assumptions C05_aiter.
+
+(* an __anext__() which does not complete synchronously: what await_sync raises
+   for it (C05_blocking) leaves the generator, nothing else happens *)
+Theorem C05_aiter_blocking : forall fixd w s c rest take,
+  (match sr_out (await_sync fixd w s (helper c)) with
+   | SyValue _ | SyRaise StopAsyncIteration | SyCloseRaised StopAsyncIteration => False
+   | _ => True
+   end) ->
+  let r0 := await_sync fixd w s (helper c) in
+  let r := aiter_sync fixd w s (c :: rest) (S take) in
+  ai_end r = ARaise (sr_out r0) /\ ai_events r = sr_events r0 /\ ai_obj r = sr_obj r0.
+Proof. exact aiter_blocking. Qed.
+Print Assumptions C05_aiter_blocking.
+
+(* The repair at its source (shared with C01): whatever a CoroStart captures
+   when it starts a coroutine, no future is left with its flag set ... *)
+Theorem C05_capture_flag_invariant : forall w s c,
+  (forall f, f_flag (w f) = false) ->
+  let '(_, _, _, _, w') := csf_start true w s c in
+  forall g, w' g = w g.
+Proof. exact capture_flag_invariant. Qed.
+Print Assumptions C05_capture_flag_invariant.
+
+(* ... and the Task which later drives `await cs` receives the captured future
+   with the flag set again, as Future.__await__ yielded it. *)
+Theorem C05_rearm_for_task : forall w s c evs s' y k b w',
+  (forall f, f_flag (w f) = false) ->
+  csf_start true w s c = (evs, s', SSusp y k, b, w') ->
+  snd (task_receive (csf_first_yield w' y b) y) = None.
+Proof. exact rearm_for_task. Qed.
+Print Assumptions C05_rearm_for_task.
